@@ -17,7 +17,7 @@ KEY = "/repo/tests/ssl_key.pem"
 CA = "/repo/tests/pycacert.pem"
 SERVER_ADDR = ("::ffff:127.0.0.1", 4433, 0, 0)
 BLOCK = 32                     # Byte(salt, o) = (o div BLOCK + salt) mod 256  (TraceAsyncio!Byte)
-STEP_BUDGET = 60000
+STEP_BUDGET = 300000
 
 
 class HarnessError(Exception):
@@ -110,8 +110,11 @@ class VLoop(asyncio.AbstractEventLoop):
         return False
 
     def call_exception_handler(self, context):
-        self.exceptions.append(context)
-        self.rec.loop_exception(context)
+        # only what a callback of this run raised (Handle._run, or the transport calling
+        # datagram_received); messages from garbage collection of other runs' objects are not events
+        if context.get("exception") is not None and ("handle" in context or context.get("message") == "datagram_received"):
+            self.exceptions.append(context)
+            self.rec.loop_exception(context)
 
     def _timer_handle_cancelled(self, handle):
         pass
@@ -225,6 +228,7 @@ class Runner:
         self.steps = 0
         self.creating = None
         self.tasks = []
+        self.spin = 0
 
     # -- observation hooks ------------------------------------------------------
     def new_proto(self, proto, side, cl):
@@ -248,15 +252,16 @@ class Runner:
     def before_deliver(self, d):
         self.creating = None
         if self.net.alias.get(d.dst, d.dst) == SERVER_ADDR:
-            tok = b""
+            tok, dcid = b"", b""
             if d.data and (d.data[0] & 0x80):
                 try:
                     h = self.A["packet"].pull_quic_header(self.A["buffer"].Buffer(data=d.data), host_cid_length=8)
+                    dcid = h.destination_cid
                     if h.packet_type == self.A["packet"].QuicPacketType.INITIAL:
                         tok = h.token
                 except ValueError:
                     pass
-            self.creating = {"addr": self.rec.addr(d.src), "tok": self.rec.tok(tok), "src": d.src}
+            self.creating = {"addr": self.rec.addr(d.src), "tok": self.rec.tok(tok), "src": d.src, "dcid": dcid}
 
     def after_deliver(self, d):
         self.creating = None
@@ -283,7 +288,7 @@ class Runner:
                 cl = runner.client_of(c["src"])
                 p = runner.new_proto(self, "s", cl)
                 runner.rec.emit(op="conn-created", p=p, addr=c["addr"], tok=c["tok"],
-                                hostcid=runner.rec.cid(quic.host_cid))
+                                hostcid=runner.rec.cid(quic.host_cid), dcid=runner.rec.cid(c["dcid"]))
                 runner.dirty = True
                 runner.spawn(runner.server_conn_main(self))
 
@@ -346,6 +351,12 @@ class Runner:
             res = type(e).__name__
         self.rec.emit(op="wdone", w=w, res=res)
 
+    async def wait_connected_once(self, proto):
+        try:
+            await self.waiter("connected", proto, proto.wait_connected)
+        finally:
+            proto._c19_wc = False
+
     # -- application coroutines -----------------------------------------------------
     async def run_ops(self, proto, ops, cl, srnd):
         """Application steps of one endpoint; every call is one the public API offers."""
@@ -374,8 +385,9 @@ class Runner:
                 await asyncio.sleep(0)
             elif k == "wait_connected":
                 # API contract: a single wait_connected() at a time
-                if proto._connected_waiter is None:
-                    pending.append(self.spawn(self.waiter("connected", proto, proto.wait_connected)))
+                if not getattr(proto, "_c19_wc", False):
+                    proto._c19_wc = True
+                    pending.append(self.spawn(self.wait_connected_once(proto)))
             elif k == "wait_closed":
                 pending.append(self.spawn(self.waiter("closed", proto, proto.wait_closed)))
             elif k == "gather":
@@ -473,7 +485,8 @@ class Runner:
         try:
             proto.connect(SERVER_ADDR, transmit=c["wait_connected"])
             if c["wait_connected"]:
-                await self.waiter("connected", proto, proto.wait_connected)
+                proto._c19_wc = True
+                await self.wait_connected_once(proto)
             else:
                 proto.transmit()
             pending = await self.run_ops(proto, c["ops"], cl, srnd)
@@ -571,6 +584,18 @@ class Runner:
                 net.deliver(d)
             else:
                 net.deliver(d)
+        # executing a callback takes time on a real loop; a frozen clock would let a
+        # timer whose deadline rounds to "now" re-arm for the same instant forever.
+        # A timer that keeps re-arming in the past with nothing else to do (the core's
+        # stale pacing deadline does that while congestion-blocked) is a busy loop on
+        # a real loop: let its time pass in larger steps.
+        loop.now += 2e-6
+        if nready == 0 and nnet == 0 and ndue and loop.timers and loop.timers[0]._when <= loop.now:
+            self.spin += 1
+            if self.spin > 30:
+                loop.now += 0.004
+        else:
+            self.spin = 0
         self.snapshot()
         return True
 
@@ -607,6 +632,8 @@ class Runner:
 
 
 def load_modules():
+    import logging
+    logging.getLogger("quic").setLevel(logging.CRITICAL)
     import aioquic.asyncio.protocol as protocol
     import aioquic.asyncio.server as server
     import aioquic.buffer as buffer
@@ -633,7 +660,8 @@ def make_scenario(rnd, sid, force=None):
             x = rnd.random()
             if x < 0.3:
                 if side == "c" or rnd.random() < 0.3:
-                    out.append(["stream", rnd.choice([1, 40, 700, 3000, 9000]), rnd.choice([1, 100, 1200, 5000]),
+                    n = rnd.choice([1, 40, 700, 3000, 9000])
+                    out.append(["stream", n, rnd.choice([1, 7]) if n <= 40 else rnd.choice([100, 1200, 5000]),
                                 True if graceful else rnd.random() < 0.5])
             elif x < 0.55:
                 out.append(["ping", rnd.randint(1, 3), rnd.random() < 0.4])
